@@ -19,10 +19,11 @@ using namespace mc;
 using mpt::linepart;
 
 const char *mc_id = "C18";
-const char *mc_rule = "input enumeration: all value sequences over {below,at-min,in1,in2,at-max,above[,just-below,just-above]} up to length L per range "
-                      "([0,1], [-1,1], degenerate [1,1], NULL, inverted [1,0]) x all drivers; run shapes prefix.fill^k.suffix with k around 65535; "
+const char *mc_rule = "input enumeration: all value sequences over {below,at-min,in1,in2,at-max,above} (L<=7 quick, <=9 thorough) and the same plus {just-below,just-above} "
+                      "(L<=6 / <=7) for ranges [0,1] and [-1,1], reduced alphabets for degenerate [1,1], NULL and inverted [1,0]; run shapes prefix.fill^k.suffix, k=65531..65537; "
+                      "each input through 7 drivers (C loop, windowed C loop with every window size, join pass, array fresh/refine/2-dim, polyline) against one partition oracle; "
                       "all pairs of well-formed parts for join; all 65536 fraction codes. "
-                      "nontrivial = distinct (range,sequence) inputs whose parts contain a cut or trim fraction or a hidden point";
+                      "nontrivial = distinct (range,sequence) inputs whose partition has a cut/trim fraction or a hidden value + distinct part pairs that merged + distinct codes round-tripped";
 
 // ------------------------------------------------------------------ ranges and alphabets
 struct Rng {
